@@ -251,6 +251,14 @@ def main(prop, tier, seed, replay=None):
     t0 = time.time()
     if replay:
         data = json.load(open(replay))
+        if isinstance(data.get("case"), dict) and data["case"].get("panel"):
+            # population-level violation: the witness is the whole seeded panel -> re-run it
+            replay = None
+            seed = int(data.get("record", {}).get("seed", seed))
+            cases = mod.cases(tier, seed)
+            kw = dict(getattr(mod, "RUN_KW", {}).get(tier, {}))
+            records, stats = run_workers(prop, cases, **kw)
+            return finish(prop, tier, seed, mod.LEVEL, records, stats, mod.summarize(records, tier, seed), t0, getattr(mod, "ASSUMPTIONS", None))
         env.setup_worker()
         rec = mod.run_case(data["case"])
         print(json.dumps(jsonable({k: rec.get(k) for k in ("status", "exc", "viol", "viol_count")}), indent=1)[:6000])
